@@ -336,6 +336,7 @@ func (c *diskCache) Put(ctx context.Context, kind cache.EntryKind, hash string, 
 	}
 
 	r = nil // We read all the data from r.
+	verifYield("put.beforeCommit", key)
 
 	if c.proxy != nil {
 		rc, err := os.Open(blobFile)
@@ -457,6 +458,7 @@ func (c *diskCache) availableOrTryProxy(kind cache.EntryKind, hash string, size 
 	if listElem != nil {
 		c.mu.Unlock() // We expect a cache hit below.
 		locked = false
+		verifYield("get.afterLookup", key)
 
 		blobPath := path.Join(c.dir, c.FileLocation(kind, item.legacy, hash, item.size, item.random))
 
@@ -509,6 +511,7 @@ func (c *diskCache) availableOrTryProxy(kind cache.EntryKind, hash string, size 
 						blobPath, zstd, item.legacy, err)
 					_ = f.Close()
 
+					verifYield("get.beforeRemoveFailed", key)
 					c.mu.Lock()
 					c.lru.RemoveElement(listElem)
 					c.mu.Unlock()
@@ -738,6 +741,7 @@ func (c *diskCache) get(ctx context.Context, kind cache.EntryKind, hash string, 
 		return nil, -1, internalErr(err)
 	}
 
+	verifYield("proxyget.beforeCommit", key)
 	unreserve, removeTempfile, err = c.commit(key, legacy, blobFile, size, foundSize, sizeOnDisk, random)
 	if err != nil {
 		_ = rc.Close()
